@@ -513,6 +513,9 @@ func (m *Machine) equal(x, y Val) bool {
 			if a.Nil {
 				return true
 			}
+			if a.NonNil || a.IsStr {
+				return false
+			}
 			return m.Atom("isnil(" + a.Name + ")")
 		}
 	case Nil:
@@ -527,6 +530,9 @@ func (m *Machine) equal(x, y Val) bool {
 		case SymSeq:
 			if b.Nil {
 				return true
+			}
+			if b.NonNil || b.IsStr {
+				return false
 			}
 			return m.Atom("isnil(" + b.Name + ")")
 		case Iface, Ref, Closure, SliceV:
